@@ -13,15 +13,31 @@ def sh(cmd, timeout=7200):
     p = subprocess.run(cmd, shell=True, stdout=subprocess.PIPE, stderr=subprocess.STDOUT, timeout=timeout)
     return p.returncode, p.stdout.decode('utf-8', 'replace')
 
-rc, o = sh('git -C /repo status --porcelain')
-assert o.strip() == '', 'repo dirty: ' + o
-rc, o = sh('git -C /repo apply %s' % os.path.join(dst, 'patch.diff'))
+ISO = os.environ.get('SEED_ISOLATED') == '1'     # see seedtest.py: copy of /verif + scratch worktree of /repo, /repo untouched
+if ISO:
+    SV, SR = '/tmp/seedverif', '/tmp/seedrepo'
+    if os.environ.get('SEED_NOSYNC') != '1':
+        sh('mkdir -p %s && rsync -a --delete --exclude .git --exclude replays --exclude seeded /verif/ %s/' % (SV, SV))
+        sh("sed -i 's|path = \"/repo\"|path = \"%s\"|' %s/harness/Cargo.toml" % (SR, SV))
+    if not os.path.exists(SR):
+        rc, o = sh('git -C /repo worktree add --detach %s HEAD' % SR)
+        assert rc == 0, o
+    rc, head = sh('git -C /repo rev-parse HEAD')
+    rc, o = sh('git -C %s checkout -q --detach %s && git -C %s checkout -- . && git -C %s status --porcelain' % (SR, head.strip(), SR, SR))
+    assert rc == 0 and o.strip() == '', 'seed repo dirty: ' + o
+    RP, VD = SR, SV
+    os.environ['JB_REPO'] = SR
+else:
+    RP, VD = '/repo', '/verif'
+    rc, o = sh('git -C /repo status --porcelain')
+    assert o.strip() == '', 'repo dirty: ' + o
+rc, o = sh('git -C %s apply %s' % (RP, os.path.join(dst, 'patch.diff')))
 assert rc == 0, o
 results = meta.get('checks_against_change', {})
 try:
     for c in ids:
         t0 = time.time()
-        rc, o = sh('cd /verif && bin/check %s --tier quick 2>&1' % c)
+        rc, o = sh('cd %s && bin/check %s --tier quick 2>&1' % (VD, c))
         lines = [l for l in o.split('\n') if l.startswith('VIOLATION') or l.startswith('INFRA') or l.startswith(c + ' quick')]
         results[c] = {'rc': rc, 'lines': lines, 'wall_s': round(time.time() - t0, 1)}
         for l in lines:
@@ -31,7 +47,7 @@ try:
                 break
         print(seed, c, rc, lines)
 finally:
-    sh('git -C /repo checkout -- .')
+    sh('git -C %s checkout -- .' % RP)
 meta['checks_against_change'] = results
 meta['caught_by'] = sorted(c for c, r in results.items() if r['rc'] == 1)
 json.dump(meta, open(os.path.join(dst, 'meta.json'), 'w'), indent=1)
